@@ -154,3 +154,43 @@ Lemma tail_at_unit_end_fixed :
   iter_location_lists LLE_TABLES gen_loclists_CU_header gen_locview_pair tail_S 5 tail_loclists tail_cus
   = Ok (enum_designated [12; 17] tail_items).
 Proof. vm_compute. reflexivity. Qed.
+
+(* ------------------------------------------------------------------ the two generations' offset spaces
+   the offset -> unit map of iter_range_lists only ever holds units of the enumerated section's
+   generation: a pre-v5 unit can neither supply nor mask (by a numerically equal offset) a list of
+   .debug_rnglists, and conversely *)
+Lemma mapM_tagged {A B C} (g : A -> res B) (c : C) : forall l r,
+  mapM (fun x => do o <- g x; Ok (o, c)) l = Ok r -> forall p, In p r -> snd p = c.
+Proof.
+  induction l as [|x t IH]; intros r H p Hin; cbn [mapM] in H.
+  - inversion H; subst. destruct Hin.
+  - destruct (g x) as [o|e]; cbn [bind] in H; [|discriminate].
+    destruct (mapM _ t) as [rs|e] eqn:E; cbn [bind] in H; [|discriminate].
+    inversion H; subst. destruct Hin as [<-|Hin]; [reflexivity|]. exact (IH rs eq_refl p Hin).
+Qed.
+
+Lemma mapM_concat_in {A B} (f : A -> res (list B)) : forall l rs,
+  mapM f l = Ok rs -> forall p, In p (concat rs) -> exists x r, In x l /\ f x = Ok r /\ In p r.
+Proof.
+  induction l as [|x t IH]; intros rs H p Hin; cbn [mapM] in H.
+  - inversion H; subst. destruct Hin.
+  - destruct (f x) as [r|e] eqn:E; cbn [bind] in H; [|discriminate].
+    destruct (mapM f t) as [rs'|e] eqn:E2; cbn [bind] in H; [|discriminate].
+    inversion H; subst. cbn [concat] in Hin. apply in_app_or in Hin. destruct Hin as [Hin|Hin].
+    + exists x, r. cbn. auto.
+    + destruct (IH rs' eq_refl p Hin) as (x' & r' & Hx & Hf & Hp). exists x', r'. cbn. auto.
+Qed.
+
+Theorem range_refs_generation S ver5 cus refs :
+  range_refs S ver5 cus = Ok refs ->
+  forall o cv, In (o, cv) refs -> In cv cus /\ (5 <=? cv_version cv) = ver5.
+Proof.
+  unfold range_refs. intros H o cv Hin.
+  destruct (mapM (range_refs_of_cu S ver5) cus) as [rs|e] eqn:E; cbn [bind] in H; [|discriminate].
+  inversion H; subst. destruct (mapM_concat_in _ _ _ E _ Hin) as (cv' & r & Hcv & Hf & Hp).
+  unfold range_refs_of_cu in Hf. destruct (mapM (translate_die S cv') (cv_dies cv')) as [dies|e]; cbn [bind] in Hf; [|discriminate].
+  unfold range_refs_of_dies in Hf. destruct (Bool.eqb (5 <=? cv_version cv') ver5) eqn:W.
+  - pose proof (mapM_tagged _ cv' _ _ Hf _ Hp) as Hs. cbn [snd] in Hs. subst cv'.
+    split; [exact Hcv|]. apply Bool.eqb_prop. exact W.
+  - inversion Hf; subst. destruct Hp.
+Qed.
